@@ -2,17 +2,19 @@
 # false-alarm measurement: apply each behaviour-preserving refactoring of harmless/ to a scratch
 # worktree of /repo (PENMAN_REPO) and run every quick check; every line should say "held".
 W=${1:-/tmp/seedrun}
-cd /verif
+V=$(cd "$(dirname "$0")/.." && pwd)
+cd $V
+OUT=$(mktemp /tmp/check_out.XXXXXX)
 [ -d $W ] || git -C /repo worktree add -q --detach $W HEAD
 for d in harmless/h*.diff; do
   NAME=$(basename $d .diff)
   git -C $W checkout -q -- .
-  git -C $W apply /verif/$d || { echo "$NAME: patch does not apply"; continue; }
+  git -C $W apply $V/$d || { echo "$NAME: patch does not apply"; continue; }
   for P in $(python3 -c "import json;print(' '.join(c['property_id'] for c in json.load(open('MANIFEST.json'))['checks']))"); do
-    PENMAN_REPO=$W ./check $P > /tmp/harmless_out.txt 2>&1
+    PENMAN_REPO=$W ./check $P > $OUT 2>&1
     RC=$?
-    if [ $RC -ne 0 ] || grep -q "^VIOLATION" /tmp/harmless_out.txt; then
-      echo "$NAME $P: exit=$RC ALARM: $(grep '^VIOLATION' /tmp/harmless_out.txt | head -1)"
+    if [ $RC -ne 0 ] || grep -q "^VIOLATION" $OUT; then
+      echo "$NAME $P: exit=$RC ALARM: $(grep '^VIOLATION' $OUT | head -1)"
     else
       echo "$NAME $P: held"
     fi
@@ -20,3 +22,4 @@ for d in harmless/h*.diff; do
   git -C $W checkout -q -- .
 done
 PENMAN_REPO=/repo /venv/bin/python tools/gen_tables.py >/dev/null
+rm -f $OUT
